@@ -17,7 +17,7 @@ from fractions import Fraction
 import numpy as np
 
 from .. import core
-from ..core import Check, MachineryError, run_tlc
+from ..core import Check, MachineryError, run_tlc, pyf
 
 INF = float("inf")
 ALIASES = {"elastic": ["elastic", "off", " Elastic "], "newton": ["newton", "viscous", "NEWTON"], "maxwell": ["maxwell", "Maxwell"],
@@ -134,6 +134,62 @@ def legacy(CM, model, args, w, mu, eta):
     else:
         J = CM.sundberg(w, comp, eta, 1.0 / args[0], args[1], args[2], args[3])
     return 1.0 / complex(J)
+
+
+def by_name_and_freq_variants(ck, CM, rng, tier):
+    """(a) Every legacy compliance function is also reached BY NAME: rheology/complex_compliance parses the '!TPY_args const:' line of
+    its docstring into known_model_const_args and passes those values positionally after (frequency, compliance, viscosity). The
+    declared order must be the order of the signature, and a by-name evaluation with distinguishable values must equal the keyword call.
+    (b) andrade_freq / sundberg_freq are Andrade / Sundberg-Cooper with zeta replaced by zeta * exp(min(100, max(0, falloff * (1 -
+    |w| / w_crit)))): identical to the plain law at and above the critical frequency, Maxwell-like (larger effective zeta) below."""
+    import inspect
+    from TidalPy.rheology.complex_compliance import known_models, known_model_const_args, known_model_live_args
+    for name, fn in sorted(known_models.items()):
+        f = pyf(fn)
+        # positional order of a by-name evaluation: frequency, the live arguments (compliance, viscosity, ...), then the constants
+        n_live = len(known_model_live_args.get(name, ())) or 2
+        params = [p_ for p_ in inspect.signature(f).parameters][1 + n_live:]
+        declared = list(known_model_const_args.get(name, ()))
+        ck.case(("by_name_order", name), True)
+        if declared != params:
+            ck.violation({"clause": "by_name_argument_order", "model": name},
+                         "compliance model %s declares its constant arguments as %s but its signature takes %s after (frequency, compliance, viscosity): every by-name evaluation passes them in the declared order" % (name, declared, params), {"model": name})
+            continue
+        if n_live != 2:
+            continue
+        vals = [0.31 + 0.17 * i for i in range(len(params))]                 # distinguishable, physically harmless values
+        w, comp, visc = 2.0e-6, 1.0 / 5.0e10, 1.0e18
+        a = complex(np.asarray(f(w, comp, visc, *vals)).ravel()[0])
+        b = complex(np.asarray(f(w, comp, visc, **dict(zip(params, vals)))).ravel()[0])
+        if relc(a, b) > 1e-14:
+            ck.violation({"clause": "by_name_argument_order", "model": name}, "%s: positional (by-name order) %r != keyword call %r" % (name, a, b), {"model": name})
+    n = 300 if tier == "quick" else 5000
+    for t in range(n):
+        base = ("andrade", "sundberg")[t % 2]
+        wc = 10 ** rng.uniform(-8, -5)
+        fall = rng.choice([30.0, 5.0, 100.0])
+        ratio = [1.0, 1.0 + 10 ** rng.uniform(-6, 1), 10 ** rng.uniform(-3, -0.001), 1.0 - 10 ** rng.uniform(-6, -2), rng.uniform(0.0, 1.0)][t % 5]
+        w = wc * ratio
+        mu, eta = 10 ** rng.uniform(9, 11.5), 10 ** rng.uniform(14, 24)
+        alpha, zeta = rng.uniform(0.05, 0.6), 10 ** rng.uniform(-1, 1)
+        sm, sv = 10 ** rng.uniform(-0.5, 1.0), 10 ** rng.uniform(-2, 0.5)
+        zeff = zeta * math.exp(min(100.0, max(0.0, -fall * (ratio - 1.0))))
+        args_eff = (alpha, zeff) if base == "andrade" else (sm, sv, alpha, zeff)
+        exp = law(base, w, mu, eta, args_eff)
+        fn = getattr(CM, base + "_freq")
+        extra = (alpha, zeta, wc, fall) if base == "andrade" else (1.0 / sm, sv, alpha, zeta, wc, fall)       # (compliance offset = 1 / modulus scale)
+        det = {"model": base + "_freq", "w": w, "w/w_crit": ratio, "falloff": fall, "mu": mu, "eta": eta, "alpha": alpha, "zeta": zeta}
+        ck.case(("freq_variant", t), True)
+        for tag, f in (("jit", fn), ("py", pyf(fn))) if t % 10 == 0 else (("jit", fn),):
+            got = 1.0 / complex(np.asarray(f(w, 1.0 / mu, eta, *extra)).ravel()[0])
+            ga = 1.0 / complex(np.asarray(f(np.array([w, w]), 1.0 / mu, eta, *extra)).ravel()[1])
+            e = relc(got, exp)
+            if not e <= 1e-10 or relc(ga, got) > 1e-13:
+                ck.violation({"clause": "law_value", "model": base + "_freq", "region": "below_critical" if ratio < 1 else "at_or_above_critical"},
+                             "%s[%s](w = %.4g = %.6g w_crit): 1/J = %r (array call %r), the law with zeta_eff = %.6g gives %r (rel %.3g)" % (base + "_freq", tag, w, ratio, got, ga, zeff, exp, e), det)
+                break
+            if got.imag < 0 or got.real < 0:
+                ck.violation({"clause": "passive", "model": base + "_freq"}, "%s: modulus %r is not passive" % (base + "_freq", got), det)
 
 
 def run(tier, seed):
@@ -257,6 +313,7 @@ def run(tier, seed):
             if abs(abs(o[-1]) - mu) > abs(abs(o[0]) - mu) * (1 + 1e-9) + 1e-12 * mu:
                 ck.violation({"clause": "tends_to_unrelaxed", "model": model}, "%s: |M| moves away from mu with increasing frequency: %r -> %r (mu=%r)" % (
                     model, abs(o[0]), abs(o[-1]), mu), det)
+    by_name_and_freq_variants(ck, CM, rng, tier)
     ck.cov["traces_validated_against_impl"] = len(rows)
     ck.notes["worst_relative_deviation"] = {k: float("%.3g" % v) for k, v in sorted(worst.items())}
     ck.sample({k: str(v) for k, v in rows[0].items()})
